@@ -16,6 +16,7 @@ import (
 	"time"
 
 	badger "github.com/dgraph-io/badger/v4"
+	"github.com/dgraph-io/badger/v4/pb"
 	"github.com/dgraph-io/badger/v4/table"
 	"github.com/dgraph-io/badger/v4/y"
 	"pgregory.net/rapid"
@@ -152,6 +153,37 @@ func TestCrashChild(t *testing.T) {
 				pendingCallbacks.Wait()
 			}
 			i = j
+		case "wbatch":
+			idx++
+			ack.write("I %d", idx)
+			wb := db.NewWriteBatch()
+			var err error
+			for _, w := range op.Writes {
+				seq++
+				k := append([]byte{}, p.Keys[w.Key%len(p.Keys)]...)
+				if w.Del {
+					err = wb.Delete(k)
+				} else {
+					err = wb.Set(k, val(seq, w.VSize))
+				}
+				if err != nil {
+					ack.write("E batch set: %v", err)
+					return
+				}
+			}
+			if op.A%2 == 1 {
+				seq++
+				err = wb.WriteList(&pb.KVList{Kv: []*pb.KV{{Key: versionedKey(idx), Value: val(seq, 12), Version: 1}}})
+				if err != nil {
+					ack.write("E batch writelist: %v", err)
+					return
+				}
+			}
+			if err := wb.Flush(); err != nil {
+				ack.write("E batch flush: %v", err)
+				return
+			}
+			ack.write("A %d", idx)
 		case "txn":
 			idx++
 			ack.write("I %d", idx)
@@ -321,9 +353,37 @@ func verifyRecovered(p Prog, dir string, acked, issued int, label string) (int, 
 			break
 		}
 	}
-	inFlightDrop := issued > acked && issued >= 1 && issued <= len(kinds) && kinds[issued-1] != "txn"
+	inFlight := ""
+	if issued > acked && issued >= 1 && issued <= len(kinds) {
+		inFlight = kinds[issued-1]
+	}
+	inFlightDrop := inFlight == "dropprefix" || inFlight == "dropall"
 	if match < acked || match < 0 {
-		if inFlightDrop {
+		if inFlight == "mixbatch" {
+			// A write batch that mixes entries with and without an explicit version is written without
+			// transaction markers (by design: its entries have different versions), so a crash inside it
+			// may leave any subset of its entries: every key has its value from before or from after it.
+			pre, post := states[issued-1], states[issued]
+			keys := map[string]bool{}
+			for k := range st {
+				keys[k] = true
+			}
+			for k := range pre {
+				keys[k] = true
+			}
+			for k := range post {
+				keys[k] = true
+			}
+			for k := range keys {
+				v, ok := st[k]
+				a, okA := pre[k]
+				b, okB := post[k]
+				if !(ok == okA && bytes.Equal(v, a)) && !(ok == okB && bytes.Equal(v, b)) {
+					return 0, fmt.Errorf("%s: crash inside a write batch with an explicitly versioned entry: key %x has neither its value from before nor from after the batch (acked %d, issued %d). recovered: %s", label, k, acked, issued, st)
+				}
+			}
+			match = issued - 1
+		} else if inFlightDrop {
 			// a crash inside a drop: every key has its pre-drop value or is absent (C29)
 			pre := states[issued-1]
 			for k, v := range st {
@@ -528,12 +588,12 @@ func tailBytes(b []byte) string {
 	return string(b)
 }
 
-var wCrash = map[string]int{"txn": 10, "burst": 3, "asyncburst": 3, "flush": 4, "compact": 4, "gc": 1, "churn": 1, "reopen": 1}
+var wCrash = map[string]int{"txn": 10, "burst": 3, "asyncburst": 3, "wbatch": 4, "flush": 4, "compact": 4, "gc": 1, "churn": 1, "reopen": 1}
 
 func TestC08_CrashRecovery(t *testing.T) {
 	all := core.Thorough()
 	core.Run(t, "C08", "crash",
-		"rapid-generated single-committer workloads (multi-key transactions with values around the threshold; asynchronous bursts - transactions prepared first, then committed with CommitWith back to back, so that requests queue up into multi-request write batches; forced memtable flushes, picker-driven compactions, value log GC, clean re-opens; encryption/compression/table sizes varied) run in a child process that kills itself (SIGKILL, page cache survives) when it reaches the n-th persistence/schedule hook (WAL store, vlog store and rotation, table create/write/sync, MANIFEST append and rewrite, flush and compaction phases, GC phases, Open and Close phases). quick: 6 sampled points per workload; thorough: every point of the dry run, every second one additionally with a crash during recovery. Oracle: Open succeeds; the visible state equals the model after some prefix of the issued commits that includes every acknowledged one (multi-key transactions make partial application match no prefix); level validation passes and *.sst files == tables; a further commit gets a version above everything stored, and a clean re-open agrees. Non-trivial = the kill landed while an operation was in flight (not between operations).",
+		"rapid-generated single-committer workloads (multi-key transactions with values around the threshold; asynchronous bursts - transactions prepared first, then committed with CommitWith back to back, so that requests queue up into multi-request write batches; small WriteBatch objects (Set/Delete, every second one with an explicitly versioned entry added through WriteList: such a batch is written without transaction markers by design, so a crash inside it may leave any subset of its entries and the oracle checks every key for its before- or after-value instead); forced memtable flushes, picker-driven compactions, value log GC, clean re-opens; encryption/compression/table sizes varied) run in a child process that kills itself (SIGKILL, page cache survives) when it reaches the n-th persistence/schedule hook (WAL store, vlog store and rotation, table create/write/sync, MANIFEST append and rewrite, flush and compaction phases, GC phases, Open and Close phases). quick: 6 sampled points per workload; thorough: every point of the dry run, every second one additionally with a crash during recovery. Oracle: Open succeeds; the visible state equals the model after some prefix of the issued commits that includes every acknowledged one (multi-key transactions make partial application match no prefix); level validation passes and *.sst files == tables; a further commit gets a version above everything stored, and a clean re-open agrees. Non-trivial = the kill landed while an operation was in flight (not between operations).",
 		func(rt *rapid.T) Prog {
 			return Gen(rt, GenCfg{MinOps: 4, MaxOps: 25, Weights: wCrash, AllowEnc: true, NPoints: 6})
 		},
